@@ -29,6 +29,9 @@ WHAT THE THEOREMS SAY FOR THE PROPERTY
   in the client state or has been closed, after teardown all are closed, and every directory handle
   is closed before its handler returns.
 * `tight_name_size_bounded`: the TightVNC name-size field cannot become a negative `short`.
+* `refused_upload_leaves_no_name`, `remembered_name_always_accepted`,
+  `later_messages_act_on_accepted_paths`: a refused request leaves no usable name in the per-client
+  record; whatever follows acts only on paths accepted earlier.
 * `tight_gate`, `tight_confined_to_root`: the extension acts only if enabled for the client,
   switched on and the client is not view-only, and every path it hands to libc is below its root.
 
@@ -414,6 +417,52 @@ theorem tight_confined_to_root (cfg : Cfg) (ty : Nat) (s : S)
     PathsFs (Confined cfg.root) (tightMsg cfg ty s) ∧ UpOk cfg.root (tightMsg cfg ty s) :=
   tightMsg_confined cfg ty s hu h
 
+/-- **refused_upload_leaves_no_name**.  An upload request whose name ConvertPath refuses — for ANY
+reason: empty / leading NUL, too long once the root is prepended, not starting with '/', a ".."
+component — leaves NO name in the per-client upload record (not the client's raw name, and not the
+name of an upload that was in progress): the later messages that act on the record
+(FileUploadData end-of-file → utime, FileUploadFailed / teardown → unlink) get the empty string. -/
+theorem refused_upload_leaves_no_name (cfg : Cfg) (s : S) (hdr raw : Bytes)
+    (h1 : (readExact 7 s).1 = some hdr)
+    (hn : ¬(be16 (hdr.getD 1 0) (hdr.getD 2 0) = 0 ∨ be16 (hdr.getD 1 0) (hdr.getD 2 0) > C19.PATH_MAX - 1))
+    (h2 : (readExact (be16 (hdr.getD 1 0) (hdr.getD 2 0)) (readExact 7 s).2).1 = some raw)
+    (hrej : convertPath cfg.root (cstr raw) = none) :
+    upName (tUpload cfg s) = [] := by
+  unfold tUpload
+  simp only [h1, hn, h2, hrej, if_false]
+  unfold upName
+  simp only [twire_cl, setUp_tight]
+  cases (readExact (be16 (hdr.getD 1 0) (hdr.getD 2 0)) (readExact 7 s).2).2.cl.tight <;> rfl
+
+/-- every rejection reason is a refusal in the sense of the theorem above -/
+example : convertPath [47, 114] [] = none ∧ convertPath [47, 114] (cstr [0, 47, 120]) = none ∧
+    convertPath [47, 114] [50, 47, 120] = none ∧ convertPath [47, 114] [47, 46, 47, 46, 46, 47, 120] = none := by
+  decide
+theorem too_long_is_refused (root q : Path) (h : q.length + root.length > C19.PATH_MAX - 1) :
+    convertPath root q = none := by
+  unfold convertPath; simp [h]
+
+/-- **remembered_name_always_accepted**.  At every moment of ANY session (messages of both
+protocols in any order, refused and accepted requests, chunk calls, teardown) the upload name the
+per-client record remembers is empty or a path ConvertPath ACCEPTED for an earlier request
+(`Rooted`: `root ++ q`, q starting with '/', free of "..", short enough — `rooted_below`). -/
+theorem remembered_name_always_accepted (cfg : Cfg) (inputs : List Input) (s0 : S)
+    (h0 : UpOk cfg.root s0) : UpOk cfg.root (runSession cfg s0 inputs) :=
+  runSession_upOk cfg inputs s0 h0
+
+/-- **after any refused request, every later message acts only on accepted paths**: in any state a
+session can reach, the next TightVNC message — whatever it is — hands to libc only `Confined`
+paths: names accepted in that very message, entries of an accepted directory, or the remembered
+upload name, which by the theorem above is an earlier ACCEPTED path or empty. -/
+theorem later_messages_act_on_accepted_paths (cfg : Cfg) (inputs : List Input) (s0 : S) (ty : Nat)
+    (h0 : UpOk cfg.root s0) :
+    PathsFs (Confined cfg.root) (tightMsg cfg ty { runSession cfg s0 inputs with evs := [] }) :=
+  (tightMsg_confined cfg ty { runSession cfg s0 inputs with evs := [] }
+    (show UpOk cfg.root { runSession cfg s0 inputs with evs := [] } from runSession_upOk cfg inputs s0 h0)
+    (fun _ _ hm => by simp at hm)).1
+
+example : UpOk [47, 114] (⟨{ tightExt := true, tight := some {} }, 0, [], 0, []⟩ : S) := Or.inl rfl
+
 /-- the names that used to escape are now rejected by ConvertPath -/
 example : convertPath [47, 114] [47, 46, 46, 47, 120] = none := by decide           -- "/../x"
 example : convertPath [47, 114] [50, 47, 120] = none := by decide                   -- "2/x" (sibling "/r2/x")
@@ -425,7 +474,8 @@ example : convertPath [47, 114] [47, 46, 46, 120] = some [47, 114, 47, 46, 46, 1
 theorem unfixed_convertPath_escapes :
     let unfixed := fun (root p : Path) => root ++ p
     ¬ Rooted [47, 114] (unfixed [47, 114] [47, 46, 46, 47, 120]) := by
-  intro unfixed ⟨q, hq, he⟩
+  intro unfixed h
+  obtain ⟨q, hq, he, _⟩ := rooted_below _ _ h
   have : q = [47, 46, 46, 47, 120] := by
     simp only [unfixed] at he
     exact (List.append_cancel_left he).symm
